@@ -89,7 +89,25 @@ func init() {
 	}
 }
 
-var errT types.Type // *errors.errorString
+// Synthetic stand-ins for *errors.errorString and runtime.errorString (the
+// real types are unexported and not part of export data). Their only method,
+// Error, is served by prepareCall.
+var errT types.Type = types.NewPointer(types.NewNamed(types.NewTypeName(0, nil, "errors.errorString", nil),
+	types.NewStruct([]*types.Var{types.NewVar(0, nil, "s", types.Typ[types.String])}, nil), nil))
+var rtErrT types.Type = types.NewNamed(types.NewTypeName(0, nil, "runtime.errorString", nil), types.Typ[types.String], nil)
+
+// nativeFunc is a callable implemented by the engine.
+type nativeFunc func(args []value) value
+
+func errorMethod(t types.Type) nativeFunc {
+	switch t {
+	case errT:
+		return func(a []value) value { return (*a[0].(*value)).(structure)[0] }
+	case rtErrT:
+		return func(a []value) value { return a[0] }
+	}
+	return nil
+}
 
 func mkErr(msg string) value {
 	v := value(structure{msg})
